@@ -378,6 +378,7 @@ func runC15(p *an.Prog, r *an.Run, tier string) {
 
 	// ---- a panic the library raises on the codec's behalf (gorilla: repeated read on a failed connection)
 	checkGorillaSingleWriter(p, r)
+	checkShippedCodec(p, r)
 	// ---- a flood of unsolicited replies wedges nothing but (at worst) the flooder's own connection: every reply is
 	// handed to a one-slot channel made for that id on that connection (shared with C14.async-dispatch / C09): an
 	// unbuffered or recycled channel blocks the read loop, or delivers the flooder's message to another connection's call
